@@ -1227,7 +1227,8 @@ fn run_inner(h: &AdpHistory, prop: &str, known: &Known) -> Result<AFacts, Div> {
     // (flag of the last Pending poll, its wake count at that poll)
     let mut last_pending: Option<(Arc<FlagWaker>, u64)> = None;
     let mut top_ended = false;
-    let shared_waker = flag_waker();
+    // (in one-waker mode half of the histories use the worker thread's long-lived waker, see common::task_waker)
+    let shared_waker = if h.same_waker && hash_of(h) % 2 == 0 { task_waker() } else { flag_waker() };
     let same_waker = h.same_waker;
 
     // one poll of the top stream; returns Some(true) = item, Some(false) = Pending, None = end
